@@ -108,8 +108,17 @@ def build_real(scratch):
     harness = os.path.join(scratch, 'harness')
     p = run(['go', 'build', '-tags', 'verif', '-o', harness, '.'], cwd=hdir, env=goenv())
     if p.returncode != 0:
-        raise Infra("harness does not build against /repo:\n" + p.stderr.decode(errors='replace')[-3000:])
+        # the library streams call /repo's exported API in-process; if that API changed they cannot be built.  The
+        # streams that drive the real binary do not depend on it: fall back to them and report the rest as a broken tie.
+        err = p.stderr.decode(errors='replace')[-1500:]
+        p2 = run(['go', 'build', '-tags', 'verif cliharness', '-o', harness, '.'], cwd=hdir, env=goenv())
+        if p2.returncode != 0:
+            raise Infra("harness does not build:\n" + p2.stderr.decode(errors='replace')[-3000:])
+        LIB_BROKEN.append(err)
     return crd, harness
+
+LIB_STREAMS = {'note', 'describe', 'scale', 'chain', 'ticks', 'midix', 'lex', 'parse'}
+LIB_BROKEN = []
 
 def lake_build(targets):
     p = run(['lake', 'build'] + targets, cwd=LEAN, timeout=7200)
@@ -384,7 +393,12 @@ def check_property(pid, tier, seed):
         # correspondence + oracles on real observations
         if os.path.exists(DRIVER):
             import smfdec
+            if LIB_BROKEN:
+                problems.append(dict(kind='tie', detail=dict(note='the in-process streams cannot be built against /repo: its exported API changed',
+                                                             compiler=LIB_BROKEN[0][-600:])))
             for sname in cfg.get('streams', []):
+                if LIB_BROKEN and sname in LIB_STREAMS:
+                    continue
                 st = run_stream(sname, harness, crd, scratch, seed, tier)
                 streams.append(st)
                 # property violations the harness observed directly on the real code (real-vs-real oracles)
